@@ -148,6 +148,22 @@ def trace_reader(acc, n, kinds, script, sources="all", max_len=400, enc=False, l
                 acc.samples.append(s)
 
 
+def trace_source(acc, n, max_len=200):
+    """Leg (C) at the I/O boundary: every fill_buf / consume / Interrupted / Pending / error validated against Source.tla."""
+    wd = work_dir("tracesrc-" + acc.pid)
+    tp = os.path.join(wd, "trace.ndjson")
+    args = ["source-record", "--out", tp, "--n", n, "--max-len", max_len, "--seed", SEED]
+    summ, viol, _ = harness(args)
+    ok = validate_trace(acc, "TraceSource", tp, "C:env-level traces (every fill_buf/consume/Interrupted/Pending/error) stepped through Source.tla",
+                        "  FaultsOn = TRUE", rerun_args=[str(a) for a in args])
+    if summ:
+        acc.traces += summ["traces"] if ok else 0
+        acc.evaluations += summ["events"]
+        acc.nontrivial += summ["nontrivial"]
+        for s in summ["samples"][:1]:
+            acc.samples.append(s)
+
+
 READER_TRUST = ["TLC 1.8 evaluates the specification correctly",
                 "harness projection (harness/src/obs.rs) reports what the reader returned",
                 "bounded scope: inputs of <= K fragments over the markup alphabet plus seeds; traces are samples"]
@@ -194,6 +210,7 @@ def c02(acc):
     if not q:
         replay_reader(acc, p, "chunks", extra=["--max-all-cuts", 10], enc=True)
     trace_reader(acc, 300 if q else 3000, "doc,mut,rand,corpus,small", "plain", sources="all", max_len=500 if q else 3000)
+    trace_source(acc, 300 if q else 3000, max_len=200 if q else 1500)
     return acc.finish()
 
 
@@ -208,6 +225,7 @@ def c18(acc):
     _, p = mc_reader(acc, 2, "default" if q else "cover", ["Inv_RefMatch"], name="MC_Reader-c18")
     replay_reader(acc, p, "faults")
     trace_reader(acc, 400 if q else 4000, "doc,mut,corpus,small", "faults", sources="all", max_len=300 if q else 2000)
+    trace_source(acc, 300 if q else 3000, max_len=200 if q else 1500)
     return acc.finish("model_checking")
 
 
